@@ -55,9 +55,14 @@ func (e *bcdEncoder) Decode(src []byte, length int) ([]byte, int, error) {
 
 	dec := bcd.NewDecoder(bcd.Standard)
 	dst := make([]byte, decodedLen)
-	_, err := dec.Decode(dst, src[:read])
+	n, err := dec.Decode(dst, src[:read])
 	if err != nil {
 		return nil, 0, utils.NewSafeError(err, "failed to perform BCD decoding")
+	}
+	// a final byte holding a digit and the filler nibble decodes to a single
+	// digit: fewer digits than requested is bad BCD data
+	if n != decodedLen {
+		return nil, 0, utils.NewSafeError(bcd.ErrBadBCD, "failed to perform BCD decoding")
 	}
 
 	// becase BCD is right aligned, we skip first bytes and
